@@ -376,10 +376,10 @@ def resync (s : Sess) : Sess :=
       let tbl : Std.HashMap Nat PList.PNode := Std.HashMap.ofList ((List.range n).map fun i =>
         (base + i, { data := l.nodes.getD i 0, next := if i + 1 < n then some (base + i + 1) else none,
                      prev := if i = 0 then none else some (base + i - 1) }))
-      let heap : PList.Heap := fun j => match tbl.get? j with | some nd => some nd | none => heap0 j
+      let heap : PList.Heap := ⟨fun j => match tbl.get? j with | some nd => some nd | none => heap0 j⟩
       ({ heap := heap, fresh := base + n },
        acc.2 ++ [some { size := l.size, head := l.head.map (base + ·), tail := l.tail.map (base + ·), triple := l.triple }])
-  let r := s.model.foldl build ({ heap := fun _ => none, fresh := s.pst.fresh }, [])
+  let r := s.model.foldl build ({ heap := {}, fresh := s.pst.fresh }, [])
   { s with pst := r.1, phd := r.2, disp := {} }
 
 def setP (s : Sess) (k : Nat) (st : PList.St) (h : Option PList.Hdr) : Sess := { s with pst := st, phd := s.phd.set k h }
@@ -455,7 +455,7 @@ def relabel (s : Sess) : Sess :=
     | some d => (acc.1.insert id d, acc.2)
     | none => (acc.1.insert id acc.2, acc.2 + 1)) (({} : Std.HashMap Nat Nat), s.dnext)
   let tbl : Std.HashMap Nat PList.PNode := Std.HashMap.ofList (ids.filterMap fun id => (s.pst.heap id).map (id, ·))
-  { s with disp := r.1, dnext := r.2, pst := { s.pst with heap := fun j => tbl.get? j } }
+  { s with disp := r.1, dnext := r.2, pst := { s.pst with heap := ⟨fun j => tbl.get? j⟩ } }
 
 /-- returns the new session, the spec line and the model line -/
 def step (s : Sess) (c : Cmd) : Sess × String × String :=
